@@ -204,10 +204,19 @@ def isolation_pairs(rep, d) -> None:
                                                "get": {"operationId": "overrides", "parameters": [{"name": "q", "in": "query", "schema": S}, {"name": "X-H", "in": "header", "schema": {"type": "integer"}}],
                                                        "responses": ok(S)},
                                                "post": {"operationId": "inherits", "responses": ok(S)}}})
-    fams = {"overridden-path-parameter": (overridden_path_parameter, {"inherits"}), "shared-component-enum": (shared_component_enum, {"X", "D"}), "equal-inline-enum": (equal_inline_enum, {"Pet"}), "chain-with-siblings": (chain_with_survivor_siblings, {"X", "Mid"})}
+    def tightening_child_fails(b):
+        # a child that tightens its parent (`required` names an inherited property, at the top level or in an inline member) and is itself the
+        # bad piece; b = None: the document WITHOUT the child.  The parent is used on its own and must not notice the child at all.
+        sch = {"Base": {"type": "object", "required": ["id"], "properties": {"id": {"type": "integer"}, "note": S, "tags": {"type": "array", "items": S}}},
+               "Keeper": {"type": "object", "properties": {"base": R("Base")}}}
+        if b is not None:
+            sch["Tight"] = {"allOf": [R("Base"), {"type": "object", "required": ["note"], "properties": {"b": b}}]}
+            sch["TightTop"] = {"required": ["tags"], "allOf": [R("Base"), {"type": "object", "properties": {"b": b}}]}
+        return gen.mkdoc(sch, {"/b": {"get": {"operationId": "getBase", "responses": ok(R("Base"))}}, "/k": {"get": {"operationId": "getKeeper", "responses": ok(R("Keeper"))}}})
+    fams = {"tightening-child-fails": (tightening_child_fails, {"Tight", "TightTop"}), "overridden-path-parameter": (overridden_path_parameter, {"inherits"}), "shared-component-enum": (shared_component_enum, {"X", "D"}), "equal-inline-enum": (equal_inline_enum, {"Pet"}), "chain-with-siblings": (chain_with_survivor_siblings, {"X", "Mid"})}
     jobs = []
     for name, (mk, aff) in fams.items():
-        jobs += [(mk(bad), str(d / f"iso-{name}-faulty"), {}), (mk(good), str(d / f"iso-{name}-repaired"), {})]
+        jobs += [(mk(bad), str(d / f"iso-{name}-faulty"), {}), (mk(good if name != "tightening-child-fails" else None), str(d / f"iso-{name}-repaired"), {})]
     res = treegen.generate_many(jobs)
     from openapi_python_client import utils
     for i, (name, (mk, aff)) in enumerate(fams.items()):
